@@ -513,12 +513,6 @@ inline bool svsetMonitors(SVSetBase<R>& s, std::string* what, std::string* detai
    for(int i = 0; i < s.num(); i++)
    {
       const SVectorBase<R>& v = s[i];
-      if(!v.isConsistent())
-      {
-         *what = "isConsistent-false(SVector)";
-         *detail = "SVectorBase::isConsistent() of vector number " + I(i) + " returned false";
-         return false;
-      }
       if(v.max() < v.size() || v.size() < 0)
       {
          *what = "vector-size-above-max";
@@ -541,6 +535,16 @@ inline bool svsetMonitors(SVSetBase<R>& s, std::string* what, std::string* detai
       {
          *what = "vector-memory-overlaps";
          *detail = "the capacity ranges of two vectors overlap in the nonzero memory";
+         return false;
+      }
+   }
+   for(int i = 0; i < s.num(); i++)      // only now is it safe to read the nonzeros
+   {
+      const SVectorBase<R>& v = s[i];
+      if(!v.isConsistent())
+      {
+         *what = "isConsistent-false(SVector)";
+         *detail = "SVectorBase::isConsistent() of vector number " + I(i) + " returned false";
          return false;
       }
    }
